@@ -104,9 +104,24 @@ class Sweep:
         if 'C02' in self.props and self.payload.get('prepass', True):
             from contracts import b_query
             b_query.prepass(root)
+        self._olds = list(root.walk(True)) if 'C15' in self.props else None
 
     def post_edit(self, root, key, what_op, v=None):
         """C02 postcondition after a successful edit that satisfied C01 (v is None)"""
+        olds, self._olds = getattr(self, '_olds', None), None
+        if olds is not None:
+            # C15 relies on it: a node the edit took out of the tree is unmade (its AST<->FST link is cleared), a node
+            # that is still linked is still part of the tree
+            try:
+                live = {id(f) for f in root.walk(True)}
+            except Exception:
+                live = None
+            if live is not None:
+                bad = [f for f in olds if f.a is not None and id(f) not in live and f.root is root]
+                if bad:
+                    self.fail('C15', key + ':detached_alive',
+                              f'after {what_op}: {len(bad)} node(s) taken out of the tree are still linked (alive), e.g. '
+                              f'{bad[0].a.__class__.__name__} - a running walk would yield them', src_after=root.src[:200])
         if 'C02' in self.props:   # (when the source does not parse there is no fresh tree: compare() returns None)
             from contracts import b_query
             q = b_query.compare(root)
